@@ -14,7 +14,8 @@ HOSTILE_LINES = [b"", b"\x00", b"\xff\xfe\xfd", b"{", b"}", b"[", b'{"a":', b'{"
                  b"x" * 5000, b'{"_entry":1}', b'{"_entry":"e","0bad":"x"}', b'{"a":[[[[[[[[[[1]]]]]]]]]]}', b"NaN", b"+Inf", b"-Inf", b"0x1p-2", b"1_000", b"9" * 400,
                  b"1h1h1h1h1h", b"99999999999999999999h", b"1EiB", b"99999999999999999999999GB", b"-5KB", b"5 K B",
                  b'{"ids":[1,null,3]}', b'{"obj":{"list":[null]}}', b'{"a":null,"b":[null,null]}', b"[null]", b'{"a":[{"b":null}]}', b'{"_entry":null}', b'{"a":9007199254740993}',
-                 b'a=1 a=2 a', b'{"a":"b"} trailing', b'{"a":1}{"a":2}']
+                 b'a=1 a=2 a', b'{"a":"b"} trailing', b'{"a":1}{"a":2}',
+                 b'{"caf\xe9": 1}', b'{"k\xff": 1}', b'{"\xe4\xb8": 2}', b'{"a\xff": 1, "\xffb": 2, "\xc3": 3}', b'caf\xe9=1 k\xff=2']
 SWEEP_STAGES = ['| json', '| json a, ids, obj', '| json x="a", y="obj.list[0]", z="ids[1]"', '| logfmt', '| logfmt a, b', '| unpack', '| regexp `(?P<k>[a-z]+)=(?P<v>[^ ]*)`',
                 '| pattern "<a> <b>"', '| pattern "<_>=<v>"', '| decolorize', '| line_format "{{ .a }}/{{ __line__ }}"', '| label_format z="{{ .a | ToUpper }}"', '|= ip("10.0.0.0/8")',
                 '!= ip("::1")', '| json | a > 1', '| line_format "{{ repeat 1000000000000 \\"x\\" }}"', '| line_format "{{ indent 1000000000000 .app }}"',
@@ -30,7 +31,8 @@ BAD_QUERIES = [
     ('sum(rate({a="b"}[1m])) + on(a) sum(rate({a="b"}[1m]))', True), ('quantile_over_time(2, {a="b"} | unwrap x [1m])', False),
     ('quantile_over_time(-1, {a="b"} | unwrap x [1m])', False), ('topk(1000000, rate({a="b"}[1m]))', False), ('topk(9223372036854775807, count_over_time({job="x"}[1m]))', False), ('bottomk(4611686018427387904, count_over_time({job="x"}[1m]))', False),
     ('sum by (app) (topk(9223372036854775807, count_over_time({job="x"}[5s])))', False), ('topk(99999999999999999999, rate({a="b"}[1m]))', True), ('{a="b"} | drop', True), ('', True), ('{', True), ('{}', False),
-    ('{a="b"} | unwrap x', True), ('sum by (', True), ('1 +', True), ('vector(', True), ('{a="b"}[1m]', True), ('count_over_time({a="b"}[0s])', False),
+    ('{a="b"} | unwrap x', True), ('sum by (', True), ('sum(1', True), ('topk(5', True), ('count by (a) (2', True), ('vector(1) + max(3', True), ('bottomk(10 # c', True),
+    ('sum(', True), ('topk(5,', True), ('quantile_over_time(0.5', True), ('quantile_over_time(0.5,', True), ('label_replace(', True), ('{a="b"} | json x=', True), ('{a="b"} | drop a,', True), ('1 +', True), ('vector(', True), ('{a="b"}[1m]', True), ('count_over_time({a="b"}[0s])', False),
     ('count_over_time({a="b"}[1y])', True), ('{a="b"} | x > 1e999', False), ('{a="b"} | x > 5XB', True), ('"unterminated', True), ('{a="b"} # only a comment', False),
 ]
 
@@ -101,8 +103,10 @@ class P:
                 toks = qgen.Renderer(rng).expr(ast)
                 if len(toks) > 2:
                     j = rng.randrange(len(toks))
-                    mode = rng.choice(["del", "dup", "swap", "repl"])
-                    if mode == "del":
+                    mode = rng.choice(["del", "dup", "swap", "repl", "trunc", "trunc"])
+                    if mode == "trunc":
+                        del toks[max(1, j):]          # the query cut off after any token
+                    elif mode == "del":
                         del toks[j]
                     elif mode == "dup":
                         toks.insert(j, toks[j])
